@@ -268,7 +268,13 @@ def cond_dnf(test, env, neg=False):
     if isinstance(test, ast.Constant):
         val = bool(test.value) != neg
         return [[]] if val else []
-    key = text(simplify_subscript(subst(test, env)))
+    sub = simplify_subscript(subst(test, env))
+    if env and isinstance(sub, (ast.BoolOp, ast.Compare)) or (
+            env and isinstance(sub, ast.UnaryOp)
+            and isinstance(sub.op, ast.Not)):
+        # a name bound to a condition: expand the condition itself
+        return cond_dnf(sub, {}, neg)
+    key = text(sub)
     return [[('bool', key, not neg)]]
 
 
@@ -323,6 +329,7 @@ def feasible(conj):
     independent real variables, booleans independent)?"""
     bools = {}
     ineqs = []  # (Lin, strict)  meaning Lin < 0 / <= 0
+    eqs = []
     neqs = []
     for f in conj:
         if f[0] == 'bool':
@@ -335,39 +342,113 @@ def feasible(conj):
         elif op == '<=':
             ineqs.append((l, False))
         elif op == '==':
-            ineqs.append((l, False))
-            ineqs.append((-l, False))
+            eqs.append(l)
         else:
             neqs.append(l)
-    if len(neqs) > 6:
-        neqs = neqs[:6]
+    # Gaussian elimination of the equalities
+    eqs = list(eqs)
+    while eqs:
+        e = eqs.pop()
+        if not e.c:
+            if e.k != 0:
+                return False
+            continue
+        v = sorted(e.c)[0]
+        coef = e.c[v]
+        # v = -(rest)/coef
+        rest = Lin({a: c for a, c in e.c.items() if a != v}, e.k).scale(
+            Fraction(-1) / coef)
+
+        def sub(l):
+            if v not in l.c:
+                return l
+            cv = l.c[v]
+            base = Lin({a: c for a, c in l.c.items() if a != v}, l.k)
+            return base + rest.scale(cv)
+        eqs = [sub(x) for x in eqs]
+        ineqs = [(sub(l), s_) for l, s_ in ineqs]
+        neqs = [sub(l) for l in neqs]
+    live = []
+    for l in neqs:
+        if not l.c:
+            if l.k == 0:
+                return False
+            continue
+        live.append(l)
+    neqs = live
+    if len(neqs) > 8:
+        neqs = neqs[:8]
+    if not _fm_feasible(ineqs):
+        return False
+    if not neqs:
+        return True
+    # a disequality only matters if the rest forces equality
     for signs in itertools.product((1, -1), repeat=len(neqs)):
-        extra = [(l.scale(s), True) for l, s in zip(neqs, signs)]
+        extra = [(l.scale(s_), True) for l, s_ in zip(neqs, signs)]
         if _fm_feasible(ineqs + extra):
             return True
     return False
 
 
+def _norm_con(c, k, s_):
+    items = sorted(c.items())
+    if not items:
+        return None
+    lead = abs(items[0][1])
+    return (tuple((a, v / lead) for a, v in items), s_), k / lead
+
+
 def _fm_feasible(ineqs):
-    cons = []
+    cons = {}
+
+    def add(c, k, s_):
+        c = {a: v for a, v in c.items() if v != 0}
+        if not c:
+            if (s_ and not k < 0) or (not s_ and not k <= 0):
+                return False
+            return True
+        (key, st), kk = _norm_con(c, k, s_)
+        # keep the strongest bound for identical left-hand sides
+        for strict in (True, False):
+            old = cons.get((key, strict))
+            if old is not None:
+                # old: lhs + old (<|<=) 0 ; larger constant is stronger
+                if old > kk or (old == kk and (strict or not st)):
+                    return True
+        cons[(key, st)] = kk
+        if st:
+            o = cons.get((key, False))
+            if o is not None and o <= kk:
+                del cons[(key, False)]
+        return True
+
     for l, strict in ineqs:
-        cons.append((dict(l.c), l.k, strict))
-    vars_ = set()
-    for c, _, _ in cons:
-        vars_ |= set(c)
-    for v in sorted(vars_):
-        pos, neg, rest = [], [], []
-        for c, k, s in cons:
-            a = c.get(v, 0)
+        if not add(dict(l.c), l.k, strict):
+            return False
+    while True:
+        vars_ = {}
+        for (key, st), k in cons.items():
+            for a, v in key:
+                p, n = vars_.get(a, (0, 0))
+                vars_[a] = (p + (v > 0), n + (v < 0))
+        if not vars_:
+            return True
+        v = min(vars_, key=lambda a: (vars_[a][0] * vars_[a][1], a))
+        pos, neg, rest = [], [], {}
+        for (key, st), k in cons.items():
+            d = dict(key)
+            a = d.get(v, 0)
             if a > 0:
-                pos.append((c, k, s, a))
+                pos.append((d, k, st, a))
             elif a < 0:
-                neg.append((c, k, s, a))
+                neg.append((d, k, st, a))
             else:
-                rest.append((c, k, s))
-        for cp, kp, sp, ap in pos:
+                rest[(key, st)] = k
+        cons = rest
+        if len(pos) * len(neg) > 20000:
+            raise AnalysisError('Fourier-Motzkin blow-up')
+        for cp, kp, sp_, ap in pos:
             for cn, kn, sn, an in neg:
-                # cp/ap + cn/(-an)
                 nc = {}
                 for a_, val in cp.items():
                     if a_ != v:
@@ -375,19 +456,8 @@ def _fm_feasible(ineqs):
                 for a_, val in cn.items():
                     if a_ != v:
                         nc[a_] = nc.get(a_, 0) + val / (-an)
-                nc = {a_: val for a_, val in nc.items() if val != 0}
-                rest.append((nc, kp / ap + kn / (-an), sp or sn))
-        cons = rest
-        if len(cons) > 4000:
-            raise AnalysisError('Fourier-Motzkin blow-up')
-    for c, k, s in cons:
-        if c:
-            continue
-        if s and not k < 0:
-            return False
-        if not s and not k <= 0:
-            return False
-    return True
+                if not add(nc, kp / ap + kn / (-an), sp_ or sn):
+                    return False
 
 
 def entails(conj, fact):
